@@ -8,7 +8,82 @@ use crate::run::{hash_str, no_exh_case, no_exh_count, CaseResult, Ctx, Property}
 use crate::tape::Gen;
 use coset::{CborSerializable, Header};
 
+/// The outcome for a header map inside a protected byte string does not depend on *where* that
+/// byte string sits: body of a message, or a counter-signature 1-8 levels down.  The content (no
+/// counter-signatures of its own) may hold a value nested almost to the CBOR parser's limit —
+/// each protected byte string is parsed on its own.
+fn position_case(g: &mut Gen, ctx: &mut Ctx) -> CaseResult {
+    let mut content = match gen_header(g, &mut Faults::none(), 0) {
+        Item::Map(m) => m,
+        _ => vec![],
+    };
+    content.retain(|(k, _)| k != &Item::Int(7));
+    let deep = if g.bool() {
+        let d = match g.below(3) {
+            0 => 100 + g.below(120),
+            1 => 220 + g.below(30),
+            _ => 250 + g.below(7),
+        };
+        let mut v = Item::Int(1);
+        let kind = g.below(3);
+        for _ in 0..d {
+            v = match kind {
+                0 => Item::Array(vec![v]),
+                1 => Item::Map(vec![(Item::Int(0), v)]),
+                _ => Item::Tag(1000, Box::new(v)),
+            };
+        }
+        let mut l = 5000;
+        while content.iter().any(|(k, _)| k == &Item::Int(l)) {
+            l += 1;
+        }
+        content.push((Item::Int(l), v));
+        d
+    } else {
+        0
+    };
+    let slot = Wrapped::new(Item::Map(content));
+    let level = 1 + g.below(8);
+    // level 0: body protected of a COSE_Sign1; level n: protected of the innermost of n nested counter-signatures
+    let top0 = Item::Array(vec![slot.clone(), Item::Map(vec![]), Item::Null, Item::Bytes(vec![])]);
+    let mut sig = Item::Array(vec![slot, Item::Map(vec![]), Item::Bytes(vec![1])]);
+    for n in 1..level {
+        let hdr = Item::Map(vec![(Item::Int(7), if g.ratio(1, 4) { Item::Array(vec![sig.clone(), sig]) } else { sig })]);
+        sig = if g.bool() {
+            Item::Array(vec![Wrapped::new(hdr), Item::Map(vec![]), Item::Bytes(vec![n as u8])])
+        } else {
+            Item::Array(vec![Item::Bytes(vec![]), hdr, Item::Bytes(vec![n as u8])])
+        };
+    }
+    let topn = Item::Array(vec![Item::Bytes(vec![]), Item::Map(vec![(Item::Int(7), sig)]), Item::Null, Item::Bytes(vec![])]);
+    let (b0, _) = plain(&top0);
+    let (bn, _) = plain(&topn);
+    ctx.classf(format!("position:level-{}:{}", level, match deep { 0 => "flat", 1..=219 => "deep", 220..=249 => "deeper", _ => "at-limit" }));
+    ctx.nontrivial(hash_str(&format!("pos|{}|{}", level, hex_trunc(&b0, 400))));
+    ctx.sample_with(|| format!("protected content (value nested {} deep) at level 0 vs level {}: {}", deep, level, hex_trunc(&b0, 40)));
+    let r0 = coset::CoseSign1::from_slice(&b0);
+    let rn = coset::CoseSign1::from_slice(&bn);
+    fn innermost(h: &Header) -> Option<&coset::ProtectedHeader> {
+        let cs = h.counter_signatures.last()?;
+        innermost(&cs.unprotected).or_else(|| innermost(&cs.protected.header)).or(Some(&cs.protected))
+    }
+    match (&r0, &rn) {
+        (Ok(a), Ok(b)) => {
+            let pn = innermost(&b.unprotected).ok_or("no counter-signature decoded")?;
+            ensure!(same(&a.protected.header, &pn.header), "the same protected content decodes differently at level 0 and inside a counter-signature at level {}", level);
+            ensure!(a.protected.original_data == pn.original_data, "the same protected bytes are retained differently at level 0 and at level {}", level);
+        }
+        (Err(_), Err(_)) => {}
+        (Ok(_), Err(e)) => fail!("protected content (a value nested {} deep) accepted as a message's protected header but rejected ({:?}) as that of a counter-signature {} level(s) down: {}", deep, e, level, hex_trunc(&bn, 60)),
+        (Err(e), Ok(_)) => fail!("protected content (a value nested {} deep) rejected ({:?}) as a message's protected header but accepted inside a counter-signature {} level(s) down", deep, e, level),
+    }
+    Ok(())
+}
+
 fn case(g: &mut Gen, ctx: &mut Ctx) -> CaseResult {
+    if g.ratio(1, 16) {
+        return position_case(g, ctx);
+    }
     let (mut faults, mode) = match g.weighted(&[4, 4, 2]) {
         0 => (Faults::none(), "valid"),
         1 => (Faults::one(), "one-fault"),
@@ -111,7 +186,7 @@ pub fn property() -> Property {
         title: "Header maps: accepted iff well-formed, and every field means what the wire said",
         rule: "abstract header maps over the label alphabet (standard 1-7, reserved/unknown/negative/extreme integers, texts, non-labels) \
                generated valid-by-construction, with exactly one planted fault, or with several; each encoded in two independently drawn styles \
-               and decoded standalone, as the unprotected slot and inside the protected bstr of a random carrier; \
+               and decoded standalone, as the unprotected slot and inside the protected bstr of a random carrier; the same protected content (possibly holding a value nested up to the parser's limit) as a message's protected header and as that of a counter-signature 1-8 levels down; \
                non-trivial = >= 2 entries, or a planted fault, or a counter-signature; distinct by the abstract map (diagnostic notation)",
         assumptions: &[
             "oracle: reference acceptance model harness/src/model.rs::m_header written from RFC 8152 §3.1 and the property statement",
